@@ -217,40 +217,59 @@ READER_STREAMS = ("read_raw_data", "read_raw_data_for_channel", "read_channel_ch
 
 @rule("MP1", "exactly one timestamp-representation switch on every path from the reader to the user", floor=5)
 def mp1(ctx, R):
+    """Call sites are found through resolved callees (not receiver or helper names); the flag handed to the conversion / to the
+    receiver factory is read in canonical form through positional, keyword or default binding."""
+    from .sym import Sym, eval_cond, show
+    from .sem import calls_to, call_arg, find, W
+    from .region import nodes_reaching, call_reaches
+    from .flow import resolve_call
     prog = ctx.prog
+    gens = {"reader.TdmsReader." + m for m in READER_STREAMS}
+    convs = {"tdms._convert_data_chunk", "tdms._convert_channel_data_chunk"}
+    factory = prog.func("channel_data.get_data_receiver")
+    FLAG = ("self", "_raw_timestamps")
     consumers = []
     for fi in prog.functions.values():
+        if fi.qual in gens:
+            continue
         for c in walk_body(fi.node):
-            if isinstance(c, ast.Call) and isinstance(c.func, ast.Attribute) and c.func.attr in READER_STREAMS \
-                    and dotted(c.func.value) in ("self._reader", "tdms_reader"):
-                consumers.append((fi, c))
+            if isinstance(c, ast.Call) and isinstance(c.func, ast.Attribute) and c.func.attr in READER_STREAMS:
+                if any(f.qual in gens for f, _k in resolve_call(prog, fi, fi.cls, c)):
+                    consumers.append((fi, c))
     if len(consumers) < 5:
         raise AnchorMissing("call sites of the reader's data generators (found %d)" % len(consumers))
-    for fi, c in sorted(consumers, key=lambda x: x[0].qual):
+
+    def flag_of(fi, call, callee):
+        sy = Sym(prog, fi, fi.cls)
+        env, _g = sy.env_at(call)
+        pname = [p for p in callee.params if "timestamp" in p]
+        if not pname:
+            return None
+        return call_arg(prog, call, callee, pname[0], sy, env)
+    for fi, c in sorted(consumers, key=lambda x: (x[0].qual, x[1].lineno)):
         key = "%s::%s" % (fi.qual, c.func.attr)
         if fi.module.name != "tdms":
             R.violation(key, fi.where(c), "reader data generator consumed outside nptdms.tdms: raw chunks bypass the timestamp representation switch")
             continue
-        conv = [x for x in walk_body(fi.node) if isinstance(x, ast.Call) and call_name(x) in ("_convert_data_chunk", "_convert_channel_data_chunk")]
-        recv = [x for x in walk_body(fi.node) if isinstance(x, ast.Call) and call_name(x) == "get_data_receiver"]
-        conv_ok = [x for x in conv if len(x.args) >= 2 and dotted(x.args[1]) == "self._raw_timestamps"]
-        recv_ok = [x for x in recv if len(x.args) >= 3 and dotted(x.args[2]) == "self._raw_timestamps"]
-        # receivers may be created in a sibling block of the same function (TdmsFile._read_data allocates first)
-        if conv and recv:
+        cfg = ctx.cfg(fi)
+        conv_calls = [x for x in walk_body(fi.node) if isinstance(x, ast.Call) and call_reaches(ctx, fi, x, convs)]
+        recv_calls = calls_to(prog, fi, factory.qual)
+        if conv_calls and recv_calls:
             R.violation(key, fi.where(c), "chunks are converted AND fed to a converting receiver: the representation switch is applied twice")
-        elif conv:
-            if not conv_ok:
-                R.violation(key, fi.where(conv[0]), "timestamp conversion is not controlled by self._raw_timestamps (`%s`)" % unparse(conv[0]))
+        elif conv_calls:
+            direct = [x for x in conv_calls if any(f.qual in convs for f, _k in resolve_call(prog, fi, fi.cls, x))]
+            flags = [flag_of(fi, x, [f for f, _k in resolve_call(prog, fi, fi.cls, x) if f.qual in convs][0]) for x in direct]
+            if direct and not all(f == FLAG for f in flags):
+                R.violation(key, fi.where(direct[0]), "timestamp conversion is not controlled by self._raw_timestamps (`%s`)" % show([f for f in flags if f != FLAG][0]))
                 continue
-            # per iteration / before return: conversion precedes every yield/return of the data
-            cfg = ctx.cfg(fi)
             outs = cfg.where(lambda n: (n.kind == "return" and n.ast.value is not None) or (n.ast is not None and n.kind == "stmt" and any(
                 isinstance(x, (ast.Yield, ast.YieldFrom)) for x in walk_shallow(n.ast))))
-            through = lambda n: any(call_name(x) in ("_convert_data_chunk", "_convert_channel_data_chunk") for x in node_calls(n))
+            conv_nodes = set(nodes_reaching(ctx, fi, cfg, convs))
+            through = lambda n: n in conv_nodes
             src = cfg.where(lambda n: any(x is c for x in node_calls(n)))
             bad = None
-            for s in src:
-                starts = [m for m, k in s.succ if k not in ("exc", "uncaught", "done") and not through(m)]
+            for s_ in src:
+                starts = [m for m, k in s_.succ if k not in ("exc", "uncaught", "done") and not through(m)]
                 r = cfg.reach(starts, avoid=through, follow_exc=False) if starts else set()
                 hit = [o for o in outs if o in r]
                 if hit:
@@ -259,17 +278,40 @@ def mp1(ctx, R):
                 R.violation(key, fi.where(bad.ast), "a chunk can reach `%s` without passing the timestamp conversion: with raw_timestamps=False this "
                             "path alone hands out TimestampArray data" % bad.text())
             else:
-                R.ok(key, fi.where(c), "every chunk passes %s(chunk, self._raw_timestamps) before it is handed out" % call_name(conv_ok[0]))
-        elif recv:
-            R.check(bool(recv_ok), key, fi.where(recv[0]), "chunks go into receivers created with self._raw_timestamps",
-                    "receiver is created with `%s` instead of self._raw_timestamps" % (unparse(recv[0].args[2]) if len(recv[0].args) > 2 else "a default"))
+                R.ok(key, fi.where(c), "every chunk passes the conversion controlled by self._raw_timestamps before it is handed out")
+        elif recv_calls:
+            flags = [flag_of(fi, x, factory) for x in recv_calls]
+            R.check(all(f == FLAG for f in flags), key, fi.where(recv_calls[0]), "chunks go into receivers created with self._raw_timestamps",
+                    "receiver is created with `%s` instead of self._raw_timestamps" % (show([f for f in flags if f != FLAG][0]) if any(f != FLAG for f in flags) else ""))
         else:
             R.violation(key, fi.where(c), "chunks from the reader are handed on without the timestamp representation switch (neither "
                         "_convert_*_chunk nor a receiver created with raw_timestamps)")
-    # the converter itself switches on the flag and on the array type
+    # the converter itself switches on the flag and on the array type: the store of the converted data runs iff raw timestamps were
+    # not requested and the data is a TimestampArray
     cv = prog.func("tdms._convert_channel_data_chunk")
-    t = unparse(cv.node)
-    R.check("not raw_timestamps" in t and "TimestampArray" in t and "as_datetime64()" in t, "tdms._convert_channel_data_chunk", cv.where(),
+    flagp = ("param", [p for p in cv.params if "timestamp" in p][0]) if any("timestamp" in p for p in cv.params) else None
+    sy = Sym(prog, cv, None)
+    ok = False
+    found = False
+    for st in walk_body(cv.node):
+        if isinstance(st, ast.Assign) and isinstance(st.value, ast.Call) and isinstance(st.value.func, ast.Attribute) and st.value.func.attr == "as_datetime64":
+            found = True
+            _env, guards = sy.env_at(st)
+
+            def orc(c, raw, is_ts):
+                if c == flagp:
+                    return raw
+                if isinstance(c, tuple) and c and c[0] == "call" and c[1] == "isinstance" and find(c, ("class", "timestamp.TimestampArray")):
+                    return is_ts
+                return None
+
+            def runs(raw, is_ts):
+                vals = [eval_cond(g, lambda c: orc(c, raw, is_ts)) for g in guards]
+                return False if any(v is False for v in vals) else (True if all(v is True for v in vals) else None)
+            ok = runs(False, True) is True and runs(True, True) is False and runs(False, False) is False
+    if not found:
+        raise AnchorMissing("tdms._convert_channel_data_chunk: conversion with as_datetime64()")
+    R.check(ok and flagp is not None, "tdms._convert_channel_data_chunk", cv.where(),
             "converts TimestampArray data iff raw timestamps were not requested", "converter no longer switches on raw_timestamps / TimestampArray")
 
 
